@@ -579,8 +579,10 @@ def apply_op(sess, op, trace, observe=True, prev=None):
             f.archived(True)
         elif kind == 'attach':
             if sess.cfg.get('attach_later') and not getattr(sess, 'attached', False):
-                f.archive(open_backend(sess.cfg['backend'], sess.root, 'A', cached=False))
+                # the archive is handed over either bare or as the cached handle every klepto.archives constructor returns by default
+                f.archive(open_backend(sess.cfg['backend'], sess.root, 'A', cached=bool(sess.cfg.get('attach_cached'))))
                 sess.attached = True
+                st.result = bool(f.archived())
         elif kind == 'chdir':
             # the program moves to another working directory (or back): an attached archive stays where it is
             target = sess.root if not op[1] else os.path.join(sess.root, 'elsewhere')
